@@ -24,6 +24,18 @@
 (*            DMARC records (e.g. a wildcard SPF record), "multiple"        *)
 (*            several DMARC records, "nxdomain", "servfail"                 *)
 (*     lorg   answer at _dmarc.<organizational domain of from>              *)
+(*     slow   the policy lookup is still unanswered when the first group of *)
+(*            body checks (the pipeline-wide ones) has returned; it is      *)
+(*            answered while a check of the source block runs.  An          *)
+(*            environment choice (DNS latency): neither Prop nor Rule reads *)
+(*            it.                                                           *)
+(*     real   "no": the DKIM results are handed to DMARC as given in dkim;  *)
+(*            "unsigned" / "valid" / "broken": the message is a real one    *)
+(*            (no DKIM-Signature / a valid signature by dkim[1].d / a       *)
+(*            signature by dkim[1].d over another body) evaluated by the    *)
+(*            real check.dkim in its default configuration, and dkim is     *)
+(*            what DKIM evaluation of that message yields - in particular   *)
+(*            "a message without signatures yields the single result none". *)
 (*   output out = [verdict, action]                                         *)
 (*     verdict  DMARC result of Verifier.Apply                              *)
 (*     action   what the pipeline did: accept, quarantine (flag),           *)
@@ -222,7 +234,8 @@ FixLorg(fs, ldom, lorg) == IF Org(Canon(fs)) = Canon(fs) THEN ldom ELSE lorg
 Row(tab, shape, fs, fs2, dk, sp, order, adkim, aspf, p, spol, pct, ldom, lorg) ==
   [tab |-> tab, shape |-> shape, from |-> fs, from2 |-> fs2, dkim |-> dk, spf |-> sp, order |-> order,
    adkim |-> adkim, aspf |-> aspf, p |-> p, sp |-> spol, pct |-> pct,
-   ldom |-> ldom, lorg |-> FixLorg(fs, ldom, lorg)]
+   ldom |-> ldom, lorg |-> FixLorg(fs, ldom, lorg), slow |-> FALSE, real |-> "no"]
+With(r, slow, real) == [r EXCEPT !.slow = slow, !.real = real]
 
 NoSig == <<[v |-> "none", d |-> ""]>>
 Spf(v, mf, helo) == [v |-> v, mf |-> mf, helo |-> helo]
@@ -260,13 +273,13 @@ InVerdict ==
   \E c \in VerdictCtx, ms \in MSD \cup {<<>>}, sv \in 1..7, sd \in 1..4, ak \in Modes, as \in Modes :
     LET f == c[1]  cf == c[2]  ci == c[3]
         h == SumW(ms, 1) + sv + 3 * sd
-    IN in = Row("verdict", "one", Spell(f, cf), "",
+    IN in = With(Row("verdict", "one", Spell(f, cf), "",
                 IF ms = <<>> THEN NoSig ELSE DkimOf(f, ms, ci, h),
                 IF h % 2 = 0
                 THEN Spf(SPFVals[sv], Spell(RelDoms(f)[sd], ci), Spell(RelDoms(f)[((h \div 4) % 4) + 1], ci))
                 ELSE Spf(SPFVals[sv], "", Spell(RelDoms(f)[sd], ci)),
                 IF (h \div 2) % 2 = 0 THEN "dkim_first" ELSE "spf_first",
-                ak, as, "reject", "absent", "absent", "record", "nxdomain")
+                ak, as, "reject", "absent", "absent", "record", "nxdomain"), h % 3 = 0, "no")
 
 (* (c) action table: verdict class (7 identifier situations) x p x sp x pct x lookup outcomes x From *)
 AuthVariants(f) ==
@@ -283,10 +296,11 @@ LookupPairs == {<<"record", "nxdomain">>, <<"recjunk", "record">>, <<"multiple",
                \cup ({"none", "junk", "nxdomain"} \X Answers)
 InAction ==
   \E f \in ActionFroms, cf \in BOOLEAN, a \in 1..7, p \in Pols, spol \in Pols,
-     pct \in {"absent", "100"}, lk \in LookupPairs :
+     pct \in {"absent", "100"}, lk \in LookupPairs, slow \in BOOLEAN :
     LET m == IF (a + (IF pct = "100" THEN 1 ELSE 0)) % 2 = 0 THEN "r" ELSE "s" IN
-    in = Row("action", "one", Spell(f, cf), "", AuthVariants(f)[2 * a - 1], AuthVariants(f)[2 * a],
-             IF a % 2 = 0 THEN "dkim_first" ELSE "spf_first", m, m, p, spol, pct, lk[1], lk[2])
+    in = With(Row("action", "one", Spell(f, cf), "", AuthVariants(f)[2 * a - 1], AuthVariants(f)[2 * a],
+                  IF a % 2 = 0 THEN "dkim_first" ELSE "spf_first", m, m, p, spol, pct, lk[1], lk[2]),
+              slow, "no")
 
 (* (d) From-header shapes without exactly one author address *)
 (* "one" author address; none ("nofield", "emptygroup"); several: a list with *)
@@ -306,6 +320,24 @@ InShape ==
              <<[v |-> "pass", d |-> "victim.co.uk"]>>, Spf("pass", "victim.co.uk", "other.org"),
              "dkim_first", "r", "r", pol, "absent", "absent", "record", "nxdomain")
 
+(* (e) DKIM results produced by the real check.dkim on real messages *)
+RealKinds == {"unsigned", "valid", "broken"}
+DkimOfReal(kind, d) == CASE kind = "unsigned" -> NoSig
+                         [] kind = "valid"  -> <<[v |-> "pass", d |-> d]>>
+                         [] OTHER           -> <<[v |-> "fail", d |-> d]>>
+InRealDkim ==
+  \E f \in {"victim.co.uk", "mail.victim.co.uk"}, kind \in RealKinds, sd \in 1..3, sp \in 1..4,
+     m \in Modes, p \in {"reject", "quarantine", "none"} :
+    LET d == RelDoms(f)[sd]
+        spf == CASE sp = 1 -> Spf("fail", "other.org", "other.org")
+                 [] sp = 2 -> Spf("pass", f, "other.org")
+                 [] sp = 3 -> Spf("pass", "attacker.co.uk", f)
+                 [] OTHER  -> Spf("none", "", "other.org")
+    IN (kind = "unsigned" => sd = 1) /\
+       in = With(Row("realdkim", "one", f, "", DkimOfReal(kind, d), spf,
+                     IF sp % 2 = 0 THEN "dkim_first" ELSE "spf_first", m, m, p, "absent", "absent",
+                     "record", "nxdomain"), FALSE, kind)
+
 (* what the harness serves: TXT answers per name (queries are case-insensitive) *)
 ZoneOf(i) ==
   LET f == Canon(i.from) IN
@@ -315,7 +347,7 @@ ZoneOf(i) ==
         THEN <<[name |-> Canon(i.from2), ans |-> "record"]>> ELSE <<>>)
 
 -----------------------------------------------------------------------------
-Init == InAlign \/ InVerdict \/ InAction \/ InShape
+Init == InAlign \/ InVerdict \/ InAction \/ InShape \/ InRealDkim
 Next == FALSE /\ UNCHANGED in      \* one state per input (CHECK_DEADLOCK FALSE)
 Spec == Init /\ [][Next]_vars
 
